@@ -1,4 +1,5 @@
 """C06 — gRPC message framing round-trips and size limits are enforced (spec Framing)."""
+import json
 import os
 import re
 
@@ -25,44 +26,69 @@ META = {
 }
 
 
-def beh_of(g, path_nodes_labels):
-    """(state text of the last node, list of Deliver sizes) -> behaviour dict."""
-    text, chunks = path_nodes_labels
-    st = parse_tla_state(text, only={"recs", "tail", "enc", "havedec", "server"})
-    return {"recs": st["recs"], "tail": st["tail"], "enc": st["enc"], "havedec": st["havedec"], "server": st["server"],
-            "chunks": chunks}
-
-
 def run(ctx):
     binary = ctx.go_build(".", name="c06", only=r"zz_verif_c06_")
-    g = ctx.dump_graph("FramingMC", ctx.pick("FramingMC.cfg", "FramingMCT.cfg"), workers=8, timeout=2400)
-    ctx.mc("FramingMC", "FramingMC1.cfg", workers=8)
+    g = ctx.dump_graph("FramingMC", ctx.pick("FramingMC.cfg", "FramingMCT.cfg"), timeout=2400)
+    g1 = ctx.dump_graph("FramingMC", "FramingMC1.cfg")      # 1 record, every environment (encodings, no decompressor, client side)
     if not ctx.quick():
-        ctx.mc("FramingMC", "FramingMCT3.cfg", workers=8, timeout=2400)
-    ctx.neg("FramingMC", "FramingNeg.cfg", expect="I_Ref", workers=2)
-    ctx.neg("FramingMC", "FramingNeg2.cfg", expect="I_Bomb", workers=2)
+        ctx.mc("FramingMC", "FramingMCT3.cfg", timeout=2400)
+    ctx.neg("FramingMC", "FramingNeg.cfg", expect="I_Ref")
+    ctx.neg("FramingMC", "FramingNeg2.cfg", expect="I_Bomb")
 
-    # behaviours: every maximal path of the BFS tree + one behaviour per non-tree edge; a behaviour is the
-    # stream of its nodes and the sizes of its Deliver steps
-    def step_of(state_text, label):
-        m = re.match(r"Deliver\((\d+)\)", label)
-        return {"t": state_text, "n": int(m.group(1)) if m else None}
-    raw = ctx.edge_cover(g, step_of, limit=ctx.pick(2500, 40000), mode="paths")
-    behs, seen = [], set()
-    for b in raw:
-        chunks = [s["n"] for s in b if s["n"] is not None]
-        beh = beh_of(g, (b[-1]["t"], chunks))
-        k = repr(beh)
-        if k not in seen:
-            seen.add(k)
-            behs.append(beh)
+    # every path of the graph from an initial state (= stream + environment) to a final state is one
+    # segmentation of that stream; enumerate them all (DFS) and sample per stream
+    behs, total_paths, nstreams = [], 0, 0
+    for g, per_stream in ((g, ctx.pick(4, 400)), (g1, ctx.pick(2, 50))):
+        behs, total_paths, nstreams = collect(ctx, g, per_stream, behs, total_paths, nstreams)
+    ctx.cov["behaviours_generated"] += len(behs)
+    ctx.log("behaviours: %d streams, %d distinct segmentations in the graphs, %d executed" % (nstreams, total_paths, len(behs)))
     if len(behs) < 500:
         raise Inconclusive("only %d behaviours" % len(behs))
+    execute(ctx, binary, behs)
+
+
+def collect(ctx, g, per_stream, behs, total_paths, nstreams):
+    dcache = {}
+
+    def delivered(n):
+        if n not in dcache:
+            dcache[n] = int(re.search(r"delivered = (\d+)", g.nodes[n]).group(1))
+        return dcache[n]
+    for init in g.init:
+        nstreams += 1
+        st = parse_tla_state(g.nodes[init], only={"recs", "tail", "enc", "havedec", "server"})
+        paths, stack = [], [(init, [])]
+        while stack and len(paths) < 5000:
+            u, chunks = stack.pop()
+            outs = g.edges.get(u, ())
+            if not outs:
+                paths.append(chunks)
+                continue
+            for label, v in outs:
+                if label.startswith("Consume"):
+                    stack.append((v, chunks))
+                else:       # a Deliver(n) step (TLC labels it "Next": its bound depends on the state); n = growth of `delivered`
+                    stack.append((v, chunks + [delivered(v) - delivered(u)]))
+        uniq = sorted(set(tuple(c) for c in paths))
+        total_paths += len(uniq)
+        if len(uniq) > per_stream:
+            one = [c for c in uniq if len(c) <= 1][:1]            # always keep "everything in one frame"
+            rest = [c for c in uniq if c not in one]
+            ctx.rng.shuffle(rest)
+            uniq = one + rest[:per_stream - len(one)]
+        for c in uniq:
+            b = dict(st)
+            b["chunks"] = list(c)
+            behs.append(b)
+    return behs, total_paths, nstreams
+
+
+def execute(ctx, binary, behs):
     bpath = os.path.join(ctx.run, "beh.ndjson")
     tpath = os.path.join(ctx.run, "trace.ndjson")
     write_ndjson(bpath, behs)
     ctx.driver(binary, "TestVerifC06Framing", {"VERIF_BEHAVIOURS": bpath, "VERIF_OUT": tpath,
-                                                "VERIF_E2E_EVERY": ctx.pick(2, 1)}, timeout=1500)
+                                                "VERIF_E2E_EVERY": ctx.pick(3, 1)}, timeout=1500)
     for b in behs:
         ctx.count(b, nontrivial=len(b["recs"]) >= 1)
     ctx.sample(behs[len(behs) // 2])
@@ -73,11 +99,19 @@ def run(ctx):
     for r in rows:
         modes[r.get("mode", "-")] = modes.get(r.get("mode", "-"), 0) + 1
     ctx.log("modes:", modes)
+    if res["drift_count"]:
+        # the monitor classified these events as the known deviation class (see FramingTrace!known)
+        ev = rows[res["drift_line"] - 1]
+        ctx.finding("C06-partial-trailing-header-clean-EOF",
+                    "a stream that ends inside a message header (1-4 bytes after the last complete message) is reported by the real "
+                    "transport as a clean io.EOF instead of io.ErrUnexpectedEOF (%d cases; first: recs=%s tail=%s chunks=%s -> out=%s)" % (
+                        res["drift_count"], ev.get("recs"), ev.get("tail"), ev.get("chunks"), ev.get("out")),
+                    {"event": ev, "count": res["drift_count"]})
     if not res["accepted"]:
         ev = rows[res["line"] - 1]
         ctx.violation("framing: clause %s at trace line %d: mode=%s limit=%s enc=%r havedec=%s server=%s recs=%s tail=%s chunks=%s -> out=%s pulled=%s" % (
             res["clause"], res["line"], ev.get("mode"), ev.get("limit"), ev.get("enc"), ev.get("havedec"), ev.get("server"),
             ev.get("recs"), ev.get("tail"), ev.get("chunks"), ev.get("out"), ev.get("pulled")), {"clause": res["clause"], "event": ev})
-    ctx.cov["rule"] = ("cases = (stream, environment, segmentation) chosen by TLC (maximal paths of the FramingMC graph + one per non-tree "
-                       "edge), each executed in up to 4 bindings (abs / gzip / legacy / e2e); non-trivial = >= 1 record")
+    ctx.cov["rule"] = ("cases = (stream, environment, segmentation) chosen by TLC (paths of the FramingMC graph from an initial to a "
+                       "final state; per stream a seeded sample of its segmentations, always including the single-frame one), each executed in up to 4 bindings (abs / gzip / legacy / e2e); non-trivial = >= 1 record")
     ctx.assumptions += ["e2e binding only for server-side streams whose grpc-encoding the server accepts (identity, gzip)"]
